@@ -406,7 +406,7 @@ P("C19",
   rule="encoding x DHT/PEX settings x torrent-file or magnet x PEX before/after metadata x port message; non-trivial = the torrent is classified private (or a private magnet is refused); distinct = distinct case",
   assumptions=["both runs of a case execute in one child process, one after the other"],
   units=[
-   U("c19.private", "c19", "TestPrivate", "private torrents: no DHT, no PEX in either direction, no magnet export, private identity strings; control shows the channels are live", Q(32, 16, 900), T(1200, 16), min_nontrivial_frac=0.2, shrinktime="20s"),
+   U("c19.private", "c19", "TestPrivate", "private torrents: no DHT, no PEX in either direction, no magnet export, private identity strings; control shows the channels are live; every encoding of the flag other than 0 / \"\" / \"0\" is private; private metadata refused through a magnet link stays refused after a restart", Q(48, 16, 900), T(1200, 16), min_nontrivial_frac=0.2, shrinktime="20s"),
    U("c19.dhtfeed", "c19", "TestDHTFeed",
      "'never fed from the DHT': the session's only DHT node is scripted and answers get_peers with the addresses of listeners nobody else knows; the session holds a private torrent "
      "(generated encoding of the flag, added started or stopped-then-started) and a magnet link for the same info-hash (added before or after), which is what asks the DHT. No "
